@@ -989,6 +989,16 @@ static carquet_status_t load_next_page_mmap(
     if (zero_copy_eligible && !has_levels) {
         /* ====== ZERO-COPY PATH ====== */
 
+        /* The view exposes num_values values of the page payload: they must
+         * all be there (the copying path checks this in the PLAIN decoder). */
+        if (value_size > 0 &&
+            (size_t)num_values > (size_t)page_header.compressed_page_size / value_size) {
+            CARQUET_SET_ERROR(error, CARQUET_ERROR_INVALID_PAGE,
+                "Page announces %d values but holds %d bytes",
+                (int)num_values, (int)page_header.compressed_page_size);
+            return CARQUET_ERROR_INVALID_PAGE;
+        }
+
         /* Free previous owned buffer if any */
         if (reader->decoded_ownership == CARQUET_DATA_OWNED) {
             free(reader->decoded_values);
